@@ -77,6 +77,19 @@ def _split_op(op):
     return op[:j] + [base] + op[j + 1:], o
 
 
+def _req_pos(op):
+    return {"filter": 3, "rate": 3, "choice": 2}.get(op[0])
+
+
+def _concrete(op, o):
+    """the op with its request made concrete: a request may be `{"surv": id, ...}` = the simulants kept by the filter whose kind field
+    carries `id=<id>` (optionally reversed / every second one), known only at run time and recorded in the observation"""
+    j = _req_pos(op)
+    if j is not None and isinstance(op[j], dict):
+        return op[:j] + [list(o.get("req", []))] + op[j + 1:]
+    return op
+
+
 def _with(kind: str, **o) -> str:
     return kind + "".join(f"|{k}={v}" for k, v in o.items() if v not in (None, "", "int64", "pos", "ord", "str"))
 
@@ -217,12 +230,23 @@ def _run_ops(case):
     from vivarium.framework.utilities import rate_to_probability
     blocks = {}
     obs = {"size": env.size, "pos0": env.positions(), "ops": [], "blocks": blocks, "seed": env.seed_str}
+    kept_by_id = {}
     for op in case["ops"]:
         op, opts = _split_op(op)
         kind = op[0]
         ix, form, handle = opts.get("ix", "int64"), opts.get("form", "pos"), opts.get("h", "ord")
         o = {"t": env.tstr(), "step": env.steps}
         obs["ops"].append(o)
+        j = _req_pos(op)
+        if j is not None and isinstance(op[j], dict):
+            # the survivors of an earlier filter (a cascade of decisions about nested sub-populations)
+            src = list(kept_by_id.get(op[j].get("surv"), []))
+            if op[j].get("rev"):
+                src = src[::-1]
+            if op[j].get("odd"):
+                src = src[1::2] + src[0::2][:1]
+            o["req"] = src
+            op = _concrete(op, o)
         if kind == "step":
             env.step()
             continue
@@ -288,6 +312,8 @@ def _run_ops(case):
                 o["rows"] = _rows_of(res, popkind)
                 o["ncols"] = int(res.shape[1]) if isinstance(res, pd.DataFrame) else None
                 o["r"] = "ok"
+                if opts.get("id"):
+                    kept_by_id[opts["id"]] = list(o["kept"])
             else:
                 if kind == "choice":
                     _, _, _, ckind, k, wspec, _ = op
@@ -708,6 +734,56 @@ class C05(Prop):
             # --- choices
             for _ in range(rng.randint(1, 3)):
                 ops += self._choice_ops(rng, si, req, ak, how)
+            # --- LESSONS.md 12: the same decision again on the SAME handle at the same time and additional key - verbatim, reversed,
+            # permuted, on a covered sub-index, on the survivors of a filter - after k operations on other handles / keys / streams
+            uniq = list(dict.fromkeys(req))
+            if valid and len(uniq) >= 2 and rng.random() < (0.8 if handle == "init" else 0.45):
+                ident = f"b{blockno}"
+                base_req = uniq if rng.random() < 0.75 else req      # the remembered decision: mostly over unique labels
+                first = rng.choice(["filter", "filter", "rate", "choice"])
+                if first == "filter":
+                    ops.append(["filter", si, how(rng.choice(POPKINDS), id=ident), base_req, ["scalar", [_h(rng.choice([0.5, 0.75, 0.25]))]], ak])
+                elif first == "rate":
+                    ops.append(["rate", si, how(rng.choice(POPKINDS), id=ident), base_req, ["scalar", [_h(rng.choice([0.5, 1.0, 2.0]))]], ak])
+                else:
+                    ops.append(["choice", si, base_req, how(rng.choice(["list", "array", "series_rot"])), 3, None, ak])
+                for rep_no in range(rng.randint(1, 3)):
+                    for _ in range(rng.choice([0, 0, 1, 2, 3])):      # intervening operations: another handle / stream / key, `_choice`
+                        w = rng.random()
+                        h2 = handle if w < 0.35 else ("ord" if handle == "init" else "init")
+                        s2 = si if w < 0.7 or ns == 1 else rng.choice([k_ for k_ in range(ns) if k_ != si])
+                        ak2 = rng.choice(["other", 7, ak]) if w < 0.35 else ak
+                        if w > 0.9:
+                            ops.append(self._rchoice(rng))
+                        else:
+                            ops.append(["filter", s2, _with(rng.choice(POPKINDS), h=h2, form=rng.choice(["pos", "kw"])), base_req,
+                                        ["scalar", [_h(rng.choice([0.0, 0.5, 1.0]))]], ak2])
+                    v = rng.choice(["same", "rev", "perm", "sub", "sub"] + (["surv", "surv", "surv-rev", "surv-odd"] if first != "choice" else []))
+                    if v == "same":
+                        r2 = list(base_req)
+                    elif v == "rev":
+                        r2 = base_req[::-1]
+                    elif v == "perm":
+                        r2 = list(base_req)
+                        rng.shuffle(r2)
+                    elif v == "sub":      # covered, not a prefix: drop the first label, keep a random part of the rest in another order
+                        r2 = rng.sample(uniq[1:], rng.randint(1, len(uniq) - 1))
+                    else:
+                        r2 = {"surv": ident}
+                        if v == "surv-rev":
+                            r2["rev"] = True
+                        if v == "surv-odd":
+                            r2["odd"] = True
+                    k2 = rng.choice(["filter", "rate", "choice"])
+                    if k2 == "filter":
+                        ops.append(["filter", si, how(rng.choice(POPKINDS)), r2, ["scalar", [_h(rng.choice([0.5, 0.75, 0.25, 1.0]))]], ak])
+                    elif k2 == "rate":
+                        ops.append(["rate", si, how(rng.choice(POPKINDS)), r2, ["scalar", [_h(rng.choice([0.5, 1.0, 2.0]))]], ak])
+                    else:
+                        ops.append(["choice", si, r2, how(rng.choice(["list", "tuple", "series_rot", "series_str"])), rng.choice([2, 3, 4]),
+                                    rng.choice([None, [1, "list", [[_h(0.5), _h(0.25), _h(0.25)]]]]), ak])
+                        if ops[-1][5] is not None:
+                            ops[-1][4] = 3
             if rng.random() < 0.4:
                 ops.append(self._rchoice(rng, f9=rng.random() < 0.15))
             if rng.random() < 0.6:
@@ -841,6 +917,30 @@ class C05(Prop):
                        ["choice", 1, [lab[1]], "list", 2, None, None],
                        ["filter", 0, W("frame", ix="pop"), lab, ["list", half], None], ["choice", 1, lab, W("series_gap", ix="pop", form="kw"), 3, None, "x"]]
             out.append({"env": env, "ops": a2})
+            # ---- LESSONS.md 12: cascades of decisions about nested sub-populations and exact / permuted repeats on ONE handle at one
+            # time and additional key (filter -> filter the survivors -> choose among the survivors), with other handles in between
+            a3 = []
+            for h in ("ord", "init"):
+                o_ = "init" if h == "ord" else "ord"
+                a3 += [["filter", 0, W("series", h=h, id=f"{h}1"), req, ["scalar", [H(0.7)]], "k"],
+                       ["filter", 0, W("index", h=h, id=f"{h}2"), {"surv": f"{h}1"}, ["scalar", [H(0.7)]], "k"],
+                       ["choice", 0, {"surv": f"{h}2"}, W("list", h=h), 3, None, "k"],
+                       ["rate", 0, W("frame", h=h, form="kw"), {"surv": f"{h}1", "rev": True}, ["scalar", [H(1.0)]], "k"],
+                       ["choice", 0, {"surv": f"{h}1", "odd": True}, W("series_rot", h=h), 2, [1, "list", [[H(0.5), H(0.5)]]], "k"],
+                       ["filter", 0, W("index", h=h), req, ["scalar", [H(0.7)]], "k"],                       # verbatim
+                       ["filter", 0, W("index", h=h), req[::-1], ["scalar", [H(0.7)]], "k"],                 # reversed
+                       ["filter", 0, W("frame0", h=h), [req[3], req[1]], ["scalar", [H(0.7)]], "k"],         # covered, not a prefix
+                       ["choice", 0, req[1:], W("array", h=h, form="kw"), 2, None, "k"],
+                       ["rate", 0, W("series", h=h, id=f"{h}3"), req, ["scalar", [H(0.5)]], "k2"],
+                       ["filter", 0, W("index", h=o_), req, ["scalar", [H(0.5)]], "k2"],                     # another handle in between
+                       ["filter", 1, W("index", h=h), req, ["scalar", [H(0.5)]], "k"],                       # another stream / key
+                       ["rate", 0, W("index", h=h), {"surv": f"{h}3"}, ["scalar", [H(0.5)]], "k2"],
+                       ["choice", 0, {"surv": f"{h}3", "rev": True}, W("tuple", h=h), 3, [1, "list", [[H(0.25), H(0.25), H(0.5)]]], "k2"],
+                       ["choice", 0, req, W("list", h=h, id=f"{h}4"), 2, None, None],
+                       ["choice", 0, req[::-1], W("list", h=h), 2, None, None], ["choice", 0, [req[4], req[0], req[2]], W("list", h=h), 2, None, None],
+                       ["filter", 0, W("index", h=h), [req[5], req[4]], ["scalar", [H(0.5)]], None]]
+            a3 += [["step"]] + [op for op in a3[:9]]
+            out.append({"env": env, "ops": a3})
         # `_choice` directly: every bin edge, one numerator below and above, first and last representable draw
         T = sc.TWO53
         e = lambda a, b: a * T // b    # noqa: E731
@@ -911,6 +1011,7 @@ class C05(Prop):
         seen = set()
         for op, o in zip(case["ops"], obs["ops"]):
             op, opts = _split_op(op)
+            op = _concrete(op, o)
             kind = op[0]
             pre = "i" if opts.get("h") == "init" else ""
             if kind == "step" or o.get("r") in ("skip", None):
@@ -984,6 +1085,7 @@ class C05(Prop):
         seen = set()
         for n, (op, o) in enumerate(zip(case["ops"], obs["ops"])):
             op, opts = _split_op(op)
+            op = _concrete(op, o)
             kind = op[0]
             if kind == "step" or o.get("r") in ("skip", None):
                 continue
@@ -1041,6 +1143,7 @@ class C05(Prop):
 
         for n, (op, o) in enumerate(zip(case["ops"], obs["ops"])):
             op, opts = _split_op(op)
+            op = _concrete(op, o)
             kind = op[0]
             if kind == "rate" and o.get("conv_err"):
                 rs = [float.fromhex(h) for h in o["vhx"]]
@@ -1227,7 +1330,7 @@ class C05(Prop):
     def nontrivial(self, case, obs):
         f = c = False
         for op, o in zip(case["ops"], obs["ops"]):
-            if op[0] in ("filter", "rate") and o.get("r") == "ok" and 0 < len(o["kept"]) < len(op[3]):
+            if op[0] in ("filter", "rate") and o.get("r") == "ok" and 0 < len(o["kept"]) < len(_concrete(op, o)[3]):
                 f = True
             if op[0] in ("choice", "rchoice") and o.get("r") == "ok" and len(set(o["picks"])) > 1:
                 c = True
@@ -1239,6 +1342,7 @@ class C05(Prop):
         untracked = set()
         for op, o in zip(case["ops"], obs["ops"]):
             op, opts = _split_op(op)
+            op = _concrete(op, o)
             kind = op[0]
             t.append("op:" + kind)
             if kind == "untrack":
